@@ -49,7 +49,8 @@ func (prop) Sweep(string) []kernel.Scenario { return nil }
 
 func (prop) Describe() kernel.Description {
 	return kernel.Description{
-		Rule: "two kinds of run, chosen by the tape. (B, the simulation target) N=2..8 tasks call Submit on ONE fresh client.Runtime (so the first calls race through " +
+		Rule: "Dimensions added with the seed waves (part A): operation clients without a transport of their own; debug mode; New / NewWithClient with and without connection reuse; Submit through the OpenTelemetry and OpenTracing wrappers; the transport in effect losing its connection before any response; the response of an earlier failed call kept by its caller and read again later; the same operation value submitted to a second Runtime; multi-valued Set-Cookie. Part B: one scheme list shared by all callers. " +
+			"two kinds of run, chosen by the tape. (B, the simulation target) N=2..8 tasks call Submit on ONE fresh client.Runtime (so the first calls race through " +
 			"the lazy client creation) against a token-echoing simulated transport; the K2 scheduler runs exactly one task at a time, preempts at instrumented statement " +
 			"boundaries chosen by the tape (PCT-style change points) and at transport calls, and hands control over with raw pipe system calls the race detector cannot see, " +
 			"so every conflicting access pair not ordered by the program's own synchronisation is reported; each caller must get the response to its own request with the " +
